@@ -112,11 +112,24 @@ func (c *rsChain) IsCurrent() bool { return true }
 
 var _ neutrino.ChainSource = (*rsChain)(nil)
 
-func scenRescan(t *tr.W, r *rand.Rand) {
+// after a few hangs of the client-stop-only variant the verdict is settled
+var rescanHangs int
+
+// ownerQuits: the owner of the rescan also closes the rescan's own quit channel
+// when the client stops.  Without it the ONLY thing that ends the rescan is the
+// client's shutdown failing its fetch; an Update parked at that moment has to be
+// released by the rescan's exit alone.
+func scenRescan(t *tr.W, r *rand.Rand, ownerQuits bool) {
 	n := 3 + r.Intn(6)
 	moment := []string{"in-GetBlock", "current"}[r.Intn(2)]
 	nupd := r.Intn(3)
-	t.Case("stop rescan len=%d updates=%d moment=%s", n, nupd, moment)
+	if !ownerQuits {
+		if rescanHangs >= 3 {
+			return
+		}
+		moment, nupd = "in-GetBlock", 1+r.Intn(3)
+	}
+	t.Case("stop rescan len=%d updates=%d moment=%s ownerquits=%v", n, nupd, moment, ownerQuits)
 	c := newRsChain(n)
 	c.blockAll = moment == "in-GetBlock"
 	quit := make(chan struct{})
@@ -148,14 +161,27 @@ func scenRescan(t *tr.W, r *rand.Rand) {
 	}
 	time.Sleep(time.Duration(r.Intn(3)) * time.Millisecond)
 	// the client stops (its quit releases blocked fetches) and the owner of the rescan closes its quit channel
+	if !ownerQuits {
+		// let the Update calls reach the update channel
+		time.Sleep(10 * time.Millisecond)
+	}
 	stopOp(t, "rescan", moment, "Rescan.WaitForShutdown", func() {
 		close(c.csQuit)
-		close(quit)
+		if ownerQuits {
+			close(quit)
+		}
 		rs.WaitForShutdown()
 	})
 	p.goCall("Rescan.Start:errChan", func() error { <-errCh; return neutrino.ErrShuttingDown })
 	p.goCall("Rescan.Update", func() error { return rs.Update() })
+	before := t.Stats["caller.hang"]
 	p.settle(t)
+	if !ownerQuits {
+		if t.Stats["caller.hang"] > before {
+			rescanHangs++
+		}
+		close(quit) // release whatever is still parked
+	}
 }
 
 func init() {
